@@ -64,6 +64,10 @@ func c05Shapes() []linkShape {
 		add("chain-in-to-out", "{UP}hop")             // hop -> ../outside/file.txt
 		add("chain-out-to-in", "{UP}../outside/back") // back -> ../src/a.txt
 		add("chain-out-to-out", "{UP}../outside/chain")
+		// chains whose second link sits in another directory than the first and
+		// has a relative target (decoys sit where it would lead from the first)
+		add("chain-out-across-directories-dir", "{UP}../outside/chains/hop-dir")
+		add("chain-out-across-directories-file", "{UP}../outside/chains/hop-file")
 		add("out-dir-with-inner-links", "{UP}../outside/dirlinks")
 		// inside as written, but ".." is applied after a component that is
 		// itself a link (top -> ../.. = the root, up1 -> .. = sub), so the
@@ -73,6 +77,12 @@ func c05Shapes() []linkShape {
 		add("through-link-out-dangling", "{UP}sub/deep/top/../outside/not-there-yet")
 		add("through-link-out-long-winded", strings.Repeat("./", 300)+"{UP}sub/deep/top/../outside/file.txt")
 		add("through-link-twice-out", "{UP}sub/deep/top/sub/deep/top/../outside/file.txt")
+		// out of the tree; as written it names an existing file, but "sl" is a
+		// link to another directory, so the system looks for the file elsewhere
+		add("out-through-outside-link-dotdot", "{UP}../outside/sl/../file.txt")
+		// through an absolute link to an allow-listed outside directory, and
+		// from there on to a place that is not allow-listed
+		add("through-allowed-absolute-link-out", "{UP}m-abs/../file.txt")
 		add("through-link-stays-inside", "{UP}sub/deep/up1/../a.txt")
 		// ".." after a regular file: nothing can be reached through a file,
 		// the link dangles and leads nowhere
@@ -119,6 +129,13 @@ func c05BuildWorld(c c05Case) error {
 	os.Symlink("../plain", "/w/outside/dirlinks/deeper/inner-up-own")
 	os.Symlink("../dir", "/w/outside/dirlinks/to-other-dir")        // a dereferenced directory leading on to another outside directory
 	os.Symlink("../../dir/sub", "/w/outside/dirlinks/deeper/to-sub") // and the same one level further down
+	os.Symlink("dir/sub", "/w/outside/sl") // sl/.. is outside/dir, not outside
+	os.MkdirAll("/w/outside/chains", 0755)
+	os.Symlink("../dir", "/w/outside/chains/hop-dir")
+	os.Symlink("../file.txt", "/w/outside/chains/hop-file")
+	mustWrite("/w/dir/decoy.txt", can(), 0644) // where "../dir" leads from /w/src
+	mustWrite("/w/file.txt", can(), 0644)      // where "../file.txt" leads from /w/src
+	mustWrite("/w/src/dir/decoy.txt", "inside decoy\n", 0644)
 	os.Symlink("../src/a.txt", "/w/outside/back")
 	os.Symlink("file.txt", "/w/outside/chain")
 	mustWrite("/w/src-evil/secret.txt", can(), 0644)
@@ -137,6 +154,9 @@ func c05BuildWorld(c c05Case) error {
 		}
 	}
 	for _, l := range c.Links {
+		if l.Name == "through-allowed-absolute-link-out" {
+			os.Symlink("/w/outside/dir", "/w/src/m-abs")
+		}
 		if strings.HasPrefix(l.Name, "through-link") || strings.HasSuffix(l.Name, "then-link") {
 			os.Symlink("../..", "/w/src/sub/deep/top")
 			os.Symlink("..", "/w/src/sub/deep/up1")
@@ -191,6 +211,19 @@ func c05Facts(rel, target string, allow []string) linkFacts {
 	}
 	res, loop := mon.Resolve(filepath.Join("/w/src", rel))
 	f.FinalPath = res
+	if !loop && !f.LocInside && f.Allowed && !mon.Within("/w/src", res) {
+		// out of the tree and allow-listed as written: the place it really
+		// leads to (through other links on the way) must be allow-listed too
+		f.Allowed = false
+		for _, a := range allow {
+			if !filepath.IsAbs(a) {
+				a = filepath.Join("/w/src", a)
+			}
+			if mon.Within(filepath.Clean(a), res) {
+				f.Allowed = true
+			}
+		}
+	}
 	if !loop && f.LocInside && !mon.Within("/w/src", res) {
 		// inside as written, outside when followed through the other links
 		// on the way: the link leads out of the tree
@@ -526,7 +559,7 @@ func init() {
 	fw.Register(&fw.Property{
 		ID:    "C05",
 		Level: "exploration",
-		Rule: "a source tree with a prefix-sharing sibling (src / src-evil) and an outside area full of OUTSIDE-<n> canaries gets 1-6 links of 37 shapes (incl. links that stay inside as written but are led outside by another link) (in-tree: same dir, via root, dir, dot, dangling, dotted; out-of-tree: relative file/dir/dangling, sibling-prefix, via the root's own name, absolute in/out, chains in->out, out->in, out->out, external directory with inner links, parent, root itself) at 3 depths; " +
+		Rule: "a source tree with a prefix-sharing sibling (src / src-evil) and an outside area full of OUTSIDE-<n> canaries gets 1-6 links of 41 shapes (incl. links that stay inside as written but are led outside by another link) (in-tree: same dir, via root, dir, dot, dangling, dotted; out-of-tree: relative file/dir/dangling, sibling-prefix, via the root's own name, absolute in/out, chains in->out, out->in, out->out, external directory with inner links, parent, root itself) at 3 depths; " +
 			"packed with {dereference on/off} x {ignore on/off} x 5 allow-list settings x {fresh Packer, a Packer that packed another root at another depth before}; the slug is decoded independently and every entry is compared with the tree and with the physical target of its link; slugs from all-relative trees are handed to Unpack. Exhaustive over single shapes x option sets, PRNG over combinations. " +
 			"non-trivial = some link leaves the tree or approaches its boundary; distinct = links x options",
 		Assumptions: []string{"a link is out-of-tree when the place its target names, from the link's real location, is outside the source directory (component-wise)", "absolute links that point into the tree may be stored as absolute link entries (pinned by the repository's tests); such trees are exempt from the 'Unpack accepts' clause", "link cycles and links to special files belong to C19"},
